@@ -18,6 +18,7 @@ import SamVerif.Drive.C11
 import SamVerif.Drive.C08
 import SamVerif.Drive.C20
 import SamVerif.Drive.C16
+import SamVerif.Drive.C02
 open SamVerif.Drive
 
 def dispatch (line : String) : String :=
@@ -38,6 +39,7 @@ def dispatch (line : String) : String :=
     else if k.startsWith "c08." then C08.handle k args impl
     else if k.startsWith "c20." then C20.handle k args impl
     else if k.startsWith "c16." then C16.handle k args impl
+    else if k.startsWith "c02." then C02.handle k args impl
     else "bad-op"
   | _ => "bad-op"
 
